@@ -22,11 +22,12 @@ import time
 from checks import common
 from harness import tlc
 
-GRAM = ('Gram.bare', 'Gram.childpar', 'Gram.parentpar', 'Gram.bothpar', 'Gram.doublepar', 'Gram.ml', 'Gram.compile')
-MINE = ('Carried', 'Regroup.parse', 'Regroup.at', 'Regroup.rest', 'ParsWhenNeeded', 'NeededParsKept', 'UnknownCase',
+GRAM = ('Gram.bare', 'Gram.childpar', 'Gram.parentpar', 'Gram.bothpar', 'Gram.doublepar', 'Gram.blank', 'Gram.ml',
+        'Gram.compile')
+MINE = ('Carried', 'RefusedCleanly', 'Regroup.parse', 'Regroup.at', 'Regroup.rest', 'ParsWhenNeeded', 'NeededParsKept', 'UnknownCase',
         'UnknownEvent')
 TLC_FIELDS = ('call', 'slot', 'child', 'tlay', 'clay', 'form', 'api', 'cls', 'preS', 'path', 'newS', 'depth', 'ml',
-              'selfEnc', 'outcome', 'postS', 'ctxKept', 'outerPars', 'outerBr', 'innerPars', 'ctxSub')
+              'selfEnc', 'outcome', 'postS', 'sameText', 'ctxKept', 'outerPars', 'outerBr', 'innerPars', 'ctxSub')
 
 
 def _table(ctx):
@@ -38,7 +39,8 @@ def _table(ctx):
     os.environ['C09_TABLE'] = path
     ex = cf.ThreadPoolExecutor(max_workers=1)
     fut = ex.submit(ctx.model, 'PrecMC', 'PrecMC',
-                    ('Produce', 'LexicalPars', 'InnerGroup', 'Descend', 'Group', 'Reject'), 8, 3600, None, True, '2g')
+                    ('Produce', 'LexicalPars', 'BlankSep', 'InnerGroup', 'Descend', 'Group', 'Reject'), 8, 3600, None,
+                    True, '2g')
     rows = None
     while rows is None:
         if fut.done():
@@ -123,7 +125,7 @@ def _shard(args):
 
 def _cases(ctx, rows):
     from harness import c09_drv as drv
-    valid = [r for r in rows if r['valid']]
+    valid = [r for r in rows if r['valid'] or r['strict']]   # strict slots: the other kinds must be refused cleanly
     rng = random.Random(ctx.seed * 7919 + 9)
     full = [(tl, cl, fo) for tl in drv.TLAYS for cl in drv.CLAYS for fo in drv.FORMS if not (fo == 'ast' and cl != 'one')]
     cases = []
@@ -186,11 +188,22 @@ def run(ctx):
                 'target layout {bare, parenthesised, needed-parenthesised, backslash, enclosed multi-line, enclosed with '
                 'comments} x child layout {one line, parenthesised, multi-line, multi-line with comment} x form {source, '
                 'AST, FST} x entry point; thorough = full product, quick = plain layout for every row and form plus a '
-                'seeded sample of 5 other layout combinations per row. '
+                'seeded sample of 5 other layout combinations per row. Strict slots (literal patterns, annotation '
+                'targets): the kinds the grammar does not admit are executed too and must be refused with the source '
+                'unchanged (RefusedCleanly). '
                 'distinct = distinct (slot, child kind, target layout, child layout, form, entry point) executed')
     ctx.assumptions += ['projection harness/proj.py (hash-consed ast.parse results) and tokenize facts are trusted',
-                        'f-string internals, MatchValue.value / MatchMapping.keys / AnnAssign.target not covered',
-                        'requests the grammar admits but the compiler refuses (lone starred) are outside the domain']
+                        'covered since the follow-up: FormattedValue.value in f-strings of every quoting (plain, conversion, '
+                        'format spec, debug `{x = }` with its dependent text Constant, nested format-spec fields, operands '
+                        'ending at depth 0 of a field), MatchValue.value / MatchMapping.keys (literal-pattern grammar, every '
+                        'other kind must be refused cleanly: RefusedCleanly), AnnAssign.target (dependent `simple`) and the '
+                        't_primary of an annotated target',
+                        'not covered: t-strings / Interpolation (3.14), a debug field nested in a format spec (CPython 3.12.1 '
+                        'itself raises ValueError on f"{x:{y=}}"), literal text of f-strings, conversion / format-spec '
+                        'Constants as operands, more than one representative text per child kind',
+                        'named deviations (spec, bound to stdlib facts by Gram.* clauses): CompilerRefuses (lone starred, '
+                        'f-string as literal pattern), PegCommitsToParenthesisedTarget (`(t)[i]: int`), '
+                        'RefuseArglikeSource, RefuseParenthesisedPatternExpr, Unrepresentable, format-spec `{{` quirk']
     rows, join_model = _table(ctx)
     ctx.exhaustive = True
     gram = cf.ThreadPoolExecutor(max_workers=1).submit(_gram, ctx, rows)
@@ -201,7 +214,7 @@ def run(ctx):
     _run_puts(ctx, cases)
     gram.result()
     join_model()
-    ctx.require_clauses(list(GRAM[:3]) + ['Gram.ml', 'Carried', 'Regroup.parse', 'Regroup.at', 'Regroup.rest',
+    ctx.require_clauses(list(GRAM[:3]) + ['Gram.ml', 'Gram.blank', 'Gram.compile', 'Carried', 'RefusedCleanly', 'Regroup.parse', 'Regroup.at', 'Regroup.rest',
                                           'ParsWhenNeeded', 'NeededParsKept'])
 
 
@@ -238,9 +251,25 @@ def selftest(ctx):
                 ('outerPars := 0 (child not parenthesised)', {'outerPars': 0}, {'ParsWhenNeeded'}),
                 ('ctxSub := false (a token of another operand vanished)', {'ctxSub': False}, {'NeededParsKept'}),
                 ('outcome := raise', {'outcome': 'raise'}, {'Carried'})]
+    refused = drv.put_event(tab, 'MatchValue.value', 'store', 'Name', 'bare', 'one', 'src', 'replace')      # `case nm:` refused
+    debug = drv.put_event(tab, 'FormattedValue.value.debug', 'load', 'Add', 'bare', 'one', 'src', 'replace')  # f"{a1 + a2 = }"
+    ann = drv.put_event(tab, 'AnnAssign.target', 'store', 'Attribute', 'bare', 'one', 'src', 'replace')      # simple 1 -> 0
+    more = [(refused, 'refusal accepted', {}, set()),
+            (refused, 'refusal: outcome := ok', {'outcome': 'ok'}, {'RefusedCleanly'}),
+            (refused, 'refusal: sameText := false (source changed although it raised)', {'sameText': False},
+             {'RefusedCleanly'}),
+            (debug, 'debug field accepted (text Constant is a dependent)', {}, set()),
+            (debug, 'debug field: slot := non-debug slot (changed text Constant not licensed)',
+             {'slot': 'FormattedValue.value'}, {'Regroup.rest'}),
+            (ann, 'annotation target accepted (simple is a dependent)', {}, set()),
+            (ann, 'annotation target: slot := Assign.targets (changed `simple` not licensed)', {'slot': 'Assign.targets'},
+             {'Regroup.rest'})]
     traces = []
     for n, (_, patch, _) in enumerate(variants):
         traces.append({'id': n + 1, 'steps': [dict({k: base[k] for k in TLC_FIELDS}, **patch)]})
+    for ev, name, patch, want in more:
+        variants.append((name, patch, want))
+        traces.append({'id': len(traces) + 1, 'steps': [dict({k: ev[k] for k in TLC_FIELDS}, **patch)]})
     verd = ctx.validate(dict(tab.dump(), traces=traces), module='PrecTrace', heap='1500m')
     ok = True
     for n, (name, _, want) in enumerate(variants):
